@@ -228,8 +228,10 @@ def scenario(rng, T, roots, gated, plan, tag='wt'):
                             os.write(proj.gate_fd[x], b'0\n')
                     time.sleep(0.01)
                 if u in pending(proj, released):
+                    if len(step) > 3:
+                        time.sleep(step[3])                          # u has been in progress for a while when t changes
                     proj.set_version(t, proj.version[t] + 1)        # the change lands while u's script is in progress
-                    time.sleep(0.15)                                 # let inotify deliver it before u completes
+                    time.sleep(step[4] if len(step) > 4 else 0.15)   # let inotify deliver it before u completes
         ok = wait_quiet(proj, proc, released, True, QUIET_S)
         # --- oracle at quiescence ---
         tr = proj.read_trace()
@@ -313,6 +315,25 @@ def scenario(rng, T, roots, gated, plan, tag='wt'):
                     known.append(('KF1-change-during-own-build', text))
                 else:
                     bad('C06', text)
+        # C01 in watch mode: no target starts while a build it depends on (at any depth, through targets of any kind) has been
+        # re-running for more than a second: that build announced it was out of date before it started, the word reached the
+        # dependent within milliseconds, and only its completion makes it available again (timestamps of the scripts themselves)
+        runs_of = {}
+        open_run = {}
+        for f in sorted([g_ for g_ in tr if g_[0] in ('start', 'end') and tsf(g_) is not None], key=tsf):
+            if T.get(f[1], {}).get('kind') != 'build':
+                continue
+            if f[0] == 'start':
+                open_run[f[1]] = tsf(f)
+            elif f[1] in open_run:
+                runs_of.setdefault(f[1], []).append((open_run.pop(f[1]), tsf(f)))
+        for f in tr:
+            if f[0] == 'start' and tsf(f) is not None and f[1] in T:
+                for dd in sorted(closure(T, [f[1]]) - {f[1]}):
+                    for (a_, b_) in runs_of.get(dd, []):
+                        if a_ + 1.0 < tsf(f) < b_:
+                            bad('C01', '%s started while %s, which it depends on, had been re-running for %.2f s (and was still running)'
+                                % (f[1], dd, tsf(f) - a_))
         # freshness at quiescence (C06: "re-run by an execution that started ... after its dependencies finished their own
         # re-run"; the theorem is C06_settled_run_saw_latest_through_aggregates): in zinoma's own log, the last time t was gone
         # through (`Building`, `Build skipped`, `Starting service`) comes after the last completion (`Build success`,
